@@ -326,6 +326,8 @@ def _install_percent():
             return str(obj)
         return orig_format(obj, format_spec)
 
+    import string as _string
+
     def _str_format(self, *a, **k):
         with NoTracing():
             if any(isinstance(x, core.CrossHairValue) for x in a) or any(
@@ -334,6 +336,35 @@ def _install_percent():
                 fr = _caller_frame()
                 if fr is not None and _in_raise(fr.f_code.co_filename, fr.f_lineno):
                     return PLACEHOLDER
+                # keep the pieces when every replacement field is a plain {name} / {0} / {} without conversion or spec
+                tmpl = self if type(self) is str else realize(self)
+                pieces, auto, ok = [], 0, True
+                for lit, field, spec, conv in _string.Formatter().parse(tmpl):
+                    if lit:
+                        pieces.append(lit)
+                    if field is None:
+                        continue
+                    if spec or conv or "." in field or "[" in field:
+                        ok = False
+                        break
+                    if field == "":
+                        val = a[auto]
+                        auto += 1
+                    elif field.isdigit():
+                        val = a[int(field)]
+                    else:
+                        val = k[field]
+                    if isinstance(val, bl.AnySymbolicStr):
+                        pieces.append(val)
+                    elif isinstance(val, bl.SymbolicInt):
+                        pieces.append(DecStr(val))
+                    elif isinstance(val, core.CrossHairValue):
+                        ok = False
+                        break
+                    else:
+                        pieces.append(format(val, ""))
+                if ok:
+                    return make_template(pieces)
         return orig_str_format(self, *a, **k)
 
     if orig_repr is not None:
